@@ -3,8 +3,8 @@
      mask_2d_util.native_index_for_slim_index_2d_from / mask_slim_indexes_from,
      grid_2d_util.grid_2d_slim_from / grid_2d_native_from / convert_grid_2d,
      array_1d_util.* and mask_1d_util.native_index_for_slim_index_1d_from,
-   polymorphic in the value type (no arithmetic on values is performed by the code except the
-   multiplication by the inverted mask, modelled as "replace by zero").  No proofs here. *)
+   polymorphic in the value type (no arithmetic on values is performed by the code except zeroing the
+   masked entries of a native input: `array[mask] = 0` since /repo e8113b3 / 6af65c9, "replace by zero").  No proofs here. *)
 From Coq Require Import List Arith Bool ZArith.
 From PAV Require Import Base.Res Base.Check.
 Import ListNotations.
@@ -69,7 +69,7 @@ Section Model.
   Definition native_from (m : mask) (s : list A) : grid :=
     via_indexes (length m) (width m) (native_for_slim m) s.
 
-  (* `array *= invert(mask)` *)
+  (* `array[mask] = 0` (was `array *= invert(mask)` before /repo e8113b3 / 6af65c9) *)
   Definition zero_masked (m : mask) (n : grid) : grid :=
     map (fun rv => map (fun bv : bool * A => if fst bv then zero else snd bv) (combine (fst rv) (snd rv)))
         (combine m n).
@@ -127,7 +127,78 @@ Section Model.
     match f with Slim1 s => s | Native1 n => slim_from_1d r n end.
   Definition to_native_1d (r : list bool) (f : form1) : list A :=
     match f with Slim1 s => native_from_1d r s | Native1 n => n end.
+  (* ---------------- objects with a history (phase 2) ----------------
+     The `.native` / `.slim` accessors of Array2D / Grid2D / VectorYX2D do not look at how the object was built:
+     they construct a new object from the object's CURRENT stored array through convert_array_2d /
+     convert_grid_2d (`Array2D(values=self, mask=self.mask, store_native=True)`), so a natively stored array whose
+     masked entries became non-zero (arithmetic `arr + c`, `c - arr`, `with_new_array`, `arr[y, x] = v`) is
+     multiplied by the inverted mask again.  [obs_*] is what a reader of the object sees. *)
+  Definition acc_native (m : mask) (f : form) : form := convert m f true.
+  Definition acc_slim (m : mask) (f : form) : form := convert m f false.
+  Definition obs_slim (m : mask) (f : form) : list A := to_slim m (acc_slim m f).
+  Definition obs_native (m : mask) (f : form) : grid := to_native m (acc_native m f).
+
+  (* shape predicate of a stored array: a slim one has one entry per unmasked pixel, a native one has the mask's shape *)
+  Definition wfb (m : mask) (H W : nat) (f : form) : bool :=
+    match f with Slim s => Nat.eqb (length s) (count m) | Native n => rectb H W n end.
+
+  (* the operations that produce / change an object after construction:
+       HMap g   : elementwise arithmetic on the stored array (to_new_array: `arr + c`, `c - arr`, `arr * c`, `-arr`)
+       HNew f   : with_new_array(raw) -- the stored array is replaced by a raw array of either form
+       HBuild f sn : a new object of the class on the SAME mask object, `Array2D(values=raw, mask=obj.mask, store_native=sn)`
+       HSet k i j v : `obj[i, j] = v` on a natively stored object, `obj[k] = v` on a slim one (in place)
+       HNative / HSlim : obj = obj.native / obj.slim *)
+  Inductive hop := HMap (g : A -> A) | HNew (f : form) | HBuild (f : form) (store_native : bool)
+               | HSet (k i j : nat) (v : A) | HNative | HSlim.
+  Definition fmap (g : A -> A) (f : form) : form :=
+    match f with Slim s => Slim (map g s) | Native n => Native (map (map g) n) end.
+  Definition step (m : mask) (f : form) (o : hop) : form :=
+    match o with
+    | HMap g => fmap g f
+    | HNew f' => f'
+    | HBuild f' sn => convert m f' sn
+    | HSet k i j v => match f with Slim s => Slim (upd s k v) | Native n => Native (upd2 n (i, j) v) end
+    | HNative => acc_native m f
+    | HSlim => acc_slim m f
+    end.
+  Definition hop_ok (m : mask) (H W : nat) (o : hop) : bool :=
+    match o with HNew f' | HBuild f' _ => wfb m H W f' | _ => true end.
+  (* what is read (slim, native) from the object after construction and after every operation *)
+  Fixpoint run_hist (m : mask) (f : form) (ops : list hop) : list (list A * grid) :=
+    (obs_slim m f, obs_native m f) :: match ops with [] => [] | o :: t => run_hist m (step m f o) t end.
+
+  (* 1-D objects: Array1D / Grid1D, same accessors through convert_array_1d / convert_grid_1d *)
+  Definition obs_slim_1d (r : list bool) (f : form1) : list A := to_slim_1d r (convert_1d r f false).
+  Definition obs_native_1d (r : list bool) (f : form1) : list A := to_native_1d r (convert_1d r f true).
+  Inductive hop1 := HMap1 (g : A -> A) | HNew1 (f : form1) | HBuild1 (f : form1) (store_native : bool) | HSet1 (k j : nat) (v : A) | HNative1 | HSlim1.
+  Definition step_1d (r : list bool) (f : form1) (o : hop1) : form1 :=
+    match o with
+    | HMap1 g => match f with Slim1 s => Slim1 (map g s) | Native1 n => Native1 (map g n) end
+    | HNew1 f' => f'
+    | HBuild1 f' sn => convert_1d r f' sn
+    | HSet1 k j v => match f with Slim1 s => Slim1 (upd s k v) | Native1 n => Native1 (upd n j v) end
+    | HNative1 => convert_1d r f true
+    | HSlim1 => convert_1d r f false
+    end.
+  Fixpoint run_hist_1d (r : list bool) (f : form1) (ops : list hop1) : list (list A * list A) :=
+    (obs_slim_1d r f, obs_native_1d r f) :: match ops with [] => [] | o :: t => run_hist_1d r (step_1d r f o) t end.
 End Model.
+
+(* ---------------- a Mask2D with a history (phase 2) ----------------
+   `mask[y, x] = b` edits the mask's array in place; `mask.copy()`, `mask.with_new_array(raw)`, `mask.invert()`
+   give a new Mask2D.  Mask2D.derive_indexes is a plain property that builds a fresh DeriveIndexes2D of the mask,
+   and every index list is recomputed from the mask's current array on every read. *)
+Inductive mop := MSet (y x : nat) (b : bool) | MNew (m' : mask) | MInvert | MCopy.
+Definition mset (m : mask) (p : nat * nat) (b : bool) : mask :=
+  upd m (fst p) (upd (nth (fst p) m []) (snd p) b).
+Definition mop_ok (H W : nat) (o : mop) : bool := match o with MNew m' => rectb H W m' | _ => true end.
+Definition mstep (m : mask) (o : mop) : mask :=
+  match o with
+  | MSet y x b => mset m (y, x) b
+  | MNew m' => m'
+  | MInvert => map (map negb) m
+  | MCopy => m
+  end.
 
 (* ---------------- specification side (independent of the loops above) ---------------- *)
 Definition all_coords (H W : nat) : list (nat * nat) :=
@@ -139,6 +210,12 @@ Definition unmasked_spec (m : mask) : list (nat * nat) :=
 Definition zgrid := list (list Z).
 Definition pair_eqb (a b : nat * nat) := Nat.eqb (fst a) (fst b) && Nat.eqb (snd a) (snd b).
 Definition zg_eqb := list_eqb (list_eqb Z.eqb).
+
+(* history steps with integer values: x -> a*x + b covers arr + c, c - arr, arr * c, -arr;
+   ZSet carries the slim index k (used if the object is stored slim) and the native index (i, j) *)
+Inductive zop := ZAff (a b : Z) | ZNew (native_input : bool) (n : zgrid) (s : list Z)
+               | ZBuild (native_input : bool) (n : zgrid) (s : list Z) (store_native : bool)
+               | ZSet (k i j : nat) (v : Z) | ZNative | ZSlim.
 
 Inductive case :=
   (* util level *)
@@ -155,10 +232,53 @@ Inductive case :=
   (* 1-D *)
 | KArray1 (r : list bool) (native_input store_native : bool) (vals_native vals_slim : list Z)
           (out_slim out_native : list Z)
-| KNativeForSlim1 (r : list bool) (out : list nat).
+| KNativeForSlim1 (r : list bool) (out : list nat)
+  (* phase 2: one object followed through a history; (slim, native) read after construction and after every step *)
+| KHist (m : mask) (native_input store_native : bool) (vals_native : zgrid) (vals_slim : list Z)
+        (ops : list zop) (outs : list (list Z * zgrid))
+| KHist1 (r : list bool) (native_input store_native : bool) (vals_native vals_slim : list Z)
+         (ops : list zop) (outs : list (list Z * list Z))
+  (* phase 2: one Mask2D followed through in-place edits / copies; after construction and after every step:
+     derive_indexes.native_for_slim, .unmasked_slim, .masked_slim, Array2D(vals_native, mask).slim and
+     Array2D([1000, 1001, ...], mask).native *)
+| KMaskHist (m : mask) (vals_native : zgrid) (ops : list mop)
+            (outs : list (list (nat * nat) * list nat * list nat * list Z * zgrid)).
 
 Definition inp (native_input : bool) (n : zgrid) (s : list Z) : form :=
   if native_input then Native n else Slim s.
+
+Definition hop_of (o : zop) : hop :=
+  match o with
+  | ZAff a b => HMap (fun x => a * x + b)%Z
+  | ZNew ni n s => HNew (inp ni n s)
+  | ZBuild ni n s sn => HBuild (inp ni n s) sn
+  | ZSet k i j v => HSet k i j v
+  | ZNative => HNative
+  | ZSlim => HSlim
+  end.
+Definition inp1 (native_input : bool) (n s : list Z) : form1 := if native_input then Native1 n else Slim1 s.
+Definition hop1_of (o : zop) : hop1 :=
+  match o with
+  | ZAff a b => HMap1 (fun x => a * x + b)%Z
+  | ZNew ni n s => HNew1 (inp1 ni (hd [] n) s)
+  | ZBuild ni n s sn => HBuild1 (inp1 ni (hd [] n) s) sn
+  | ZSet k i j v => HSet1 k j v
+  | ZNative => HNative1
+  | ZSlim => HSlim1
+  end.
+(* the masks a Mask2D object holds along a history *)
+Fixpoint mstates (m : mask) (ops : list mop) : list mask :=
+  m :: match ops with [] => [] | o :: t => mstates (mstep m o) t end.
+Definition ramp (n : nat) : list Z := map (fun k => 1000 + Z.of_nat k)%Z (seq 0 n).
+Definition mobs (n : zgrid) (m : mask) :=
+  (native_for_slim m, mask_slim_indexes m false, mask_slim_indexes m true, slim_from m n, native_from 0%Z m (ramp (count m))).
+Fixpoint run_mhist (n : zgrid) (m : mask) (ops : list mop) :=
+  mobs n m :: match ops with [] => [] | o :: t => run_mhist n (mstep m o) t end.
+Definition mobs_eqb (a b : list (nat * nat) * list nat * list nat * list Z * zgrid) : bool :=
+  match a, b with
+  | (a1, a2, a3, a4, a5), (b1, b2, b3, b4, b5) =>
+      list_eqb pair_eqb a1 b1 && list_eqb Nat.eqb a2 b2 && list_eqb Nat.eqb a3 b3 && list_eqb Z.eqb a4 b4 && zg_eqb a5 b5
+  end.
 
 Definition agree (k : case) : bool :=
   match k with
@@ -178,6 +298,13 @@ Definition agree (k : case) : bool :=
       let f := convert_1d 0%Z r (if ni then Native1 n else Slim1 s) sn in
       list_eqb Z.eqb (to_slim_1d r f) os && list_eqb Z.eqb (to_native_1d 0%Z r f) on
   | KNativeForSlim1 r out => list_eqb Nat.eqb (native_for_slim_1d r 0) out
+  | KHist m ni sn n s ops outs =>
+      list_eqb (prod_eqb (list_eqb Z.eqb) zg_eqb)
+               (run_hist 0%Z m (convert 0%Z m (inp ni n s) sn) (map hop_of ops)) outs
+  | KHist1 r ni sn n s ops outs =>
+      list_eqb (prod_eqb (list_eqb Z.eqb) (list_eqb Z.eqb))
+               (run_hist_1d 0%Z r (convert_1d 0%Z r (inp1 ni n s) sn) (map hop1_of ops)) outs
+  | KMaskHist m n ops outs => list_eqb mobs_eqb (run_mhist n m ops) outs
   end.
 
 (* specification verdict on the implementation's output: written with the spec definitions only *)
@@ -192,6 +319,45 @@ Definition spec_native (m : mask) (slim : list Z) : zgrid :=
        (seq 0 (width m))) (seq 0 (length m)).
 Definition spec_zero_masked (m : mask) (n : zgrid) : zgrid :=
   map (fun y => map (fun x => if mget m (y, x) then 0%Z else get2 0%Z n (y, x)) (seq 0 (width m))) (seq 0 (length m)).
+
+(* histories, specification side: the object is a "virtual native" grid whose masked entries are never
+   observable, plus the information which form is stored (only needed to interpret an in-place element assignment);
+   updates are written pointwise over [seq], no loops of the model are used *)
+Definition spec_set (H W : nat) (g : zgrid) (p : nat * nat) (v : Z) : zgrid :=
+  map (fun y => map (fun x => if pair_eqb (y, x) p then v else get2 0%Z g (y, x)) (seq 0 W)) (seq 0 H).
+Definition sstep (m : mask) (st : zgrid * bool) (o : zop) : zgrid * bool :=
+  let (g, isnat) := st in
+  match o with
+  | ZAff a b => (map (map (fun x => a * x + b)%Z) g, isnat)
+  | ZNew ni n s => if ni then (n, true) else (spec_native m s, false)
+  | ZBuild ni n s sn => (if ni then n else spec_native m s, sn)
+  | ZSet k i j v => (spec_set (length m) (width m) g (if isnat then (i, j) else nth k (unmasked_spec m) (0, 0)) v, isnat)
+  | ZNative => (g, true)
+  | ZSlim => (g, false)
+  end.
+Definition sobs (m : mask) (g : zgrid) : list Z * zgrid := (spec_slim m g, spec_zero_masked m g).
+Fixpoint spec_hist (m : mask) (st : zgrid * bool) (ops : list zop) : list (list Z * zgrid) :=
+  sobs m (fst st) :: match ops with [] => [] | o :: t => spec_hist m (sstep m st o) t end.
+Definition sinit (m : mask) (ni sn : bool) (n : zgrid) (s : list Z) : zgrid * bool :=
+  (if ni then n else spec_native m s, sn).
+(* 1-D histories are the one-row instance; an element assignment on a natively stored 1-D object is at (0, j) *)
+Definition zop_row (o : zop) : zop := match o with ZSet k i j v => ZSet k 0 j v | _ => o end.
+
+Definition spec_mset (m : mask) (p : nat * nat) (b : bool) : mask :=
+  map (fun y => map (fun x => if pair_eqb (y, x) p then b else mget m (y, x)) (seq 0 (width m))) (seq 0 (length m)).
+Definition spec_mstep (m : mask) (o : mop) : mask :=
+  match o with
+  | MSet y x b => spec_mset m (y, x) b
+  | MNew m' => m'
+  | MInvert => map (fun y => map (fun x => negb (mget m (y, x))) (seq 0 (width m))) (seq 0 (length m))
+  | MCopy => m
+  end.
+Definition flat_filter (m : mask) (flag : bool) : list nat :=
+  filter (fun i => Bool.eqb (nth i (concat m) true) flag) (seq 0 (length (concat m))).
+Definition spec_mobs (n : zgrid) (m : mask) :=
+  (unmasked_spec m, flat_filter m false, flat_filter m true, spec_slim m n, spec_native m (ramp (length (unmasked_spec m)))).
+Fixpoint spec_mhist (n : zgrid) (m : mask) (ops : list mop) :=
+  spec_mobs n m :: match ops with [] => [] | o :: t => spec_mhist n (spec_mstep m o) t end.
 
 Definition spec_ok (k : case) : bool :=
   match k with
@@ -213,6 +379,12 @@ Definition spec_ok (k : case) : bool :=
       if ni then list_eqb Z.eqb os (spec_slim m [n]) && zg_eqb [on] (spec_zero_masked m [n])
       else list_eqb Z.eqb os s && zg_eqb [on] (spec_native m s)
   | KNativeForSlim1 r out => list_eqb Nat.eqb out (map snd (unmasked_spec [r]))
+  | KHist m ni sn n s ops outs =>
+      list_eqb (prod_eqb (list_eqb Z.eqb) zg_eqb) outs (spec_hist m (sinit m ni sn n s) ops)
+  | KHist1 r ni sn n s ops outs =>
+      list_eqb (prod_eqb (list_eqb Z.eqb) zg_eqb) (map (fun o => (fst o, [snd o])) outs)
+               (spec_hist [r] (sinit [r] ni sn [n] s) (map zop_row ops))
+  | KMaskHist m n ops outs => list_eqb mobs_eqb outs (spec_mhist n m ops)
   end.
 
 Definition check (k : case) : nat := verdict (agree k) (spec_ok k).
